@@ -92,8 +92,9 @@ class C08(C02):
     quick_budget_s, thorough_budget_s = 170, 1800
     rule = ("one run = one history family (every note-writing path: commit, partial commit incl. commits that contain no "
             "AI line while a session is pending, amend with and without new AI work, rebase slow and fast path, rebase "
-            "-i, cherry-pick, merge --squash + commit, reset + re-commit, stash/pop + commit) under one of 13 prompt-storage "
-            "configurations (default / local / notes x include / exclude lists x 0..2 remotes x default_prompt_storage); "
+            "-i, cherry-pick, merge --squash + commit, reset + re-commit, stash/pop + commit, amend after a partial commit, pull, "
+            "the CI rewrite) under one of 15 prompt-storage configurations (default / local / notes x include / exclude lists "
+            "x 0..2 remotes x default_prompt_storage x remotes named through url.<base>.insteadOf); "
             "every AI checkpoint carries an inline transcript with a unique canary, in some runs also a credential-like "
             "token from a pool the shipped heuristic masks; after every git command every blob reachable from every "
             "commit of refs/notes/ai is scanned: no canary unless the effective mode (computed by an independent model "
